@@ -218,6 +218,15 @@ def check_type(spec, rspec):
     r2 = r1.resolve(reg)
     if shape(r2) != shape(r1) or enc(r2) != enc(r1):
         fails.append((f"type:{k}:not-idempotent", f"{spec} under {rspec}: resolving twice differs from resolving once"))
+    # the expression that was handed in is left as it was: resolving it against a registry that knows
+    # nothing must still give the all-opaque form
+    empty = {e: None for e in rspec}
+    try:
+        again = shape(ty.resolve(build_registry(empty)))
+        if again != expected_shape(spec, empty):
+            fails.append((f"type:{k}:input-mutated", f"{spec}: after resolve() under {rspec} the original expression itself resolves (under an empty registry) to {again}, expected {expected_shape(spec, empty)}"))
+    except Exception as e:  # noqa: BLE001
+        fails.append((f"type:{k}:input-mutated", f"{spec}: re-resolving the original raised {type(e).__name__}: {e}"))
     return fails
 
 
@@ -398,6 +407,74 @@ def check_hugr(di, rspec):
     return fails
 
 
+def second_registries():
+    """Registries applied *after* the first one: nothing, one extension only, everything."""
+    full = {name: (sorted(d["types"]), sorted(d["ops"])) for name, d in EXT_DEFS.items()}
+    return [{n: None for n in EXT_DEFS}, {"x.ext": full["x.ext"], "y.ext": None}, {"x.ext": None, "y.ext": full["y.ext"]}, full]
+
+
+def check_hugr_sequence(di, rspec1, rspec2):
+    """resolve_extensions(r1) then resolve_extensions(r2): an op is definition-backed afterwards exactly when
+    r1 or r2 holds its definition (a registry that lacks it leaves the HUGR untouched), document unchanged."""
+    from hugr import ops
+    from hugr.hugr import Hugr
+
+    name, text, opnames = hugr_docs()[di]
+    fails = []
+    h = Hugr.load_json(text)
+    v0 = hugr_view(h)
+    try:
+        h.resolve_extensions(build_registry(rspec1))
+        v1 = hugr_view(h)
+        h.resolve_extensions(build_registry(rspec2))
+    except Exception as e:  # noqa: BLE001
+        return [("hugr:sequence:resolve-raised", f"{name} under {rspec1} then {rspec2}: {type(e).__name__}: {e}")]
+    customs = [(n, h[n].op) for n in h if isinstance(h[n].op, (ops.Custom, ops.ExtOp))]
+    for (n, op), (extn, opn) in zip(customs, opnames):
+        should = has_op(rspec1, extn, opn) or has_op(rspec2, extn, opn)
+        is_res = isinstance(op, ops.ExtOp)
+        if should != is_res:
+            which = "demoted" if has_op(rspec1, extn, opn) and not is_res else ("missed" if should else "spurious")
+            fails.append((f"hugr:sequence:{which}", f"{name} under {rspec1} then {rspec2}: op {extn}.{opn} is {'definition-backed' if is_res else 'opaque'} after both resolutions"))
+    v2 = hugr_view(h)
+    for a, b in zip(v0, v2):
+        if a["op"] != b["op"] or a["signature"] != b["signature"] or a["out_port_types"] != b["out_port_types"]:
+            fails.append(("hugr:sequence:document-changed", f"{name} under {rspec1} then {rspec2}: node document / signature / port types changed: {a['op']} -> {b['op']}"))
+            break
+    return fails
+
+
+def check_refused_registration(rspec):
+    """A second extension of the same name is refused (ExtensionExists) and the registry keeps the first:
+    resolution afterwards is what it was before the refused call."""
+    from hugr import ext
+
+    fails = []
+    reg = build_registry(rspec)
+    for name, v in rspec.items():
+        if v is None:
+            continue
+        clash = ext.Extension(name, ext.Version(9, 9, 9))
+        for tn, (params, b) in EXT_DEFS[name]["types"].items():
+            if tn not in v[0]:  # the clashing extension defines exactly what the registered one lacks
+                clash.add_type_def(ext.TypeDef(tn, "clash", [T.build_param(p) for p in params], ext.ExplicitBound(__import__("hugr").tys.TypeBound.Any)))
+        for on, poly in EXT_DEFS[name]["ops"].items():
+            if on not in v[1]:
+                clash.add_op_def(ext.OpDef(on, ext.OpDefSig(T.build_type(poly)), "clash"))
+        try:
+            reg.add_extension(clash)
+            fails.append(("registry:duplicate-accepted", f"{rspec}: a second extension named {name} was accepted"))
+        except ext.ExtensionRegistry.ExtensionExists:
+            pass
+        except Exception as e:  # noqa: BLE001
+            fails.append(("registry:duplicate-raised-other", f"{rspec}: {type(e).__name__}: {e}"))
+    for spec in (TA_, TB_(TC_), TC_, TM_):
+        got = shape(T.build_type(spec).resolve(reg))
+        if got != expected_shape(spec, rspec):
+            fails.append(("registry:changed-by-refused-registration", f"{rspec}: after a refused duplicate registration {spec} resolves to {got}, expected {expected_shape(spec, rspec)}"))
+    return fails
+
+
 def _opaque_leaves(t):
     from hugr import tys
 
@@ -452,6 +529,10 @@ def _work(item):
         fs = check_type(a, rspec)
     elif kind == "hugr":
         fs = check_hugr(a, rspec)
+    elif kind == "hugr-seq":
+        fs = check_hugr_sequence(a[0], rspec, second_registries()[a[1]])
+    elif kind == "refused-registration":
+        fs = check_refused_registration(rspec)
     else:
         fs = model_invariance(rspec)
     return [(s, m, [kind, a, rspec]) for s, m in fs]
@@ -476,6 +557,8 @@ def run(tier: str, seed: int) -> Result:
     items = [("type", t, r) for t in exprs for r in regs]
     items += [("hugr", i, r) for i in range(len(hugr_docs())) for r in regs]
     items += [("model", None, r) for r in regs]
+    items += [("hugr-seq", [i, j], r) for i in range(len(hugr_docs())) for j in range(len(second_registries())) for r in regs]
+    items += [("refused-registration", None, r) for r in regs]
     for res in pmap(_chunk, [items[i::64] for i in range(64)]):
         for sig, msg, it in res:
             col.add(sig, msg, {"item": it})
@@ -491,7 +574,9 @@ def run(tier: str, seed: int) -> Result:
         "rule": f"{len(exprs)} type expressions (opaque leaves nested to depth 2-3 in sums, function types, fn-in-sum, polymorphic bodies, type "
         f"args, sequences, args of opaque types) x {len(regs)} registries (each of 2 extensions absent or holding any subset of its definitions); "
         f"{len(hugr_docs())} loaded HUGRs with 1-3 opaque ops (owner / empty runtime_reqs, unknown extension, missing op) x registries; "
-        "model export before/after; oracle = reference resolution by registry membership",
+        "model export before/after; every loaded HUGR also resolved against a second registry afterwards (none / one extension / all); a "
+        "refused duplicate registration leaves the registry as it was; the expression handed to resolve() is not modified; "
+        "oracle = reference resolution by registry membership",
         "samples": col.samples,
         "exhaustive": True,
         "registries": len(regs),
